@@ -187,3 +187,161 @@ def _ensures(self):
 PartitionsSimplifyDown.ensures = _ensures
 
 SPECS = [PartitionsSimplifyDown()]
+
+
+# ---------------------------------------------------------------------------------------------------------------------
+# Head._simplify_down / Head._lower
+# ---------------------------------------------------------------------------------------------------------------------
+from vf.pyvc.values import Lab  # noqa: E402
+
+ROOT = z3.Function("rows_root_name", Lab, Lab)
+
+
+class HeadSimplifyDown(Spec):
+    """head(n, npartitions=k) of an elementwise operation = the operation on head(n, k) of every operand that carries the
+    frame's rows - with THE SAME n and THE SAME k - provided all row operands have the same rows; broadcast operands and
+    literals are passed on unchanged; on a single partition, where a column cannot be told from a broadcast operand, the
+    operation stays below the head.  head(n) of head(m, k) = head(min(n, m), k) of the inner frame."""
+
+    file, qualname, props = E, "Head._simplify_down", ["C11", "C01"]
+    case = {"frame": "Elemwise", "b_is_row_operand": True}
+    assumptions = ["object model: the frame's operands are (expression a, expression b, literal); `_row_operands` returns the operands that carry rows (a, and b unless it is a broadcast operand); `_rows_root(e)._name` is an uninterpreted function of e's name; distinct expressions have distinct names (C08)"]
+
+    def cases(self):
+        yield {"frame": "Elemwise", "b_is_row_operand": True}
+        yield {"frame": "Elemwise", "b_is_row_operand": False}
+        yield {"frame": "Head", "b_is_row_operand": True}
+        yield {"frame": "Other", "b_is_row_operand": True}
+
+    def make_inputs(self, ex, sym, fr):
+        k = self.case
+        na, nb = z3.Const("name_a", Lab), z3.Const("name_b", Lab)
+        sym.pc.append(na != nb)
+        a = Obj("operand_a", {"_name": na}, cls=("Expr",))
+        b = Obj("operand_b", {"_name": nb}, cls=("Expr",))
+        lit = z3.Int("literal_operand")
+        n, kk = sym.int("n"), sym.int("npartitions_operand")
+        fn = sym.int("frame_npartitions", lo=1)
+        rows = (a, b) if k["b_is_row_operand"] else (a,)
+        self._rows = rows
+        if k["frame"] == "Head":
+            inner_n, inner_k = sym.int("inner_n"), sym.int("inner_npartitions_operand")
+            inner = Obj("inner_frame", {"_name": z3.Const("name_inner", Lab)}, cls=("Expr",))
+            frame = Obj("frame", {"frame": inner, "n": inner_n, "operand": contract_fn(lambda e, f, name: inner_k if name == "npartitions" else Opaque("frame." + name)), "npartitions": 1}, cls=("Expr", "Head"))
+            extra = {"inner": inner, "inner_n": inner_n, "inner_k": inner_k}
+        else:
+            frame = Obj("frame", {"operands": (a, b, lit), "npartitions": fn, "dependencies": contract_fn(lambda e, f: (a, b))}, cls=("Expr", k["frame"]))
+            extra = {}
+        me = Obj("self", {"frame": frame, "n": n, "operand": contract_fn(lambda e, f, name: kk if name == "npartitions" else Opaque("self." + name)), "npartitions": 1}, cls=("Expr", "Head"))
+        env = {"self": me, "a": a, "b": b, "lit": lit, "n": n, "k": kk, "fn": fn, "na": na, "nb": nb}
+        env.update(extra)
+        return env
+
+    def call(self, ex, fr, name, args, kwargs):
+        if name == "_row_operands":
+            return self._rows
+        if name == "_rows_root":
+            return Obj("rows-root", {"_name": ROOT(args[0].attrs["_name"])}, cls=("Expr",))
+        if name == "Head":
+            return Term("Head", args)
+        return NotImplemented
+
+    star_call = PartitionsSimplifyDown.star_call
+    isinstance_hook = PartitionsSimplifyDown.isinstance_hook
+
+    def ensures(self):
+        k = self.case
+
+        def is_head(c, t, op, env):
+            return isinstance(t, Term) and t.cls == "Head" and len(t.args) == 3 and t.args[0] is op and c.ex.equal(t.args[1], env["n"], c.fr) is not False and c.And(c.eq(t.args[1], env["n"]), c.eq(t.args[2], env["k"]))
+
+        def pushed(c, env, r):
+            if not c.symbolic or k["frame"] != "Elemwise":
+                return True
+            same_rows = (ROOT(env["na"]) == ROOT(env["nb"])) if k["b_is_row_operand"] else z3.BoolVal(True)
+            one_part_ambiguous = z3.And(env["fn"] == 1, z3.BoolVal(not k["b_is_row_operand"]))
+            if r is None:
+                return z3.Or(z3.Not(same_rows), one_part_ambiguous)
+            if not (isinstance(r, Term) and r.cls == "Rebuilt" and len(r.args) == 3):
+                return False
+            ra, rb, rl = r.args
+            oka = is_head(c, ra, env["a"], env)
+            if k["b_is_row_operand"]:
+                okb = is_head(c, rb, env["b"], env)
+            elif isinstance(rb, Ite):  # `Head(op, ...) if op._name in rows else op`: the condition must be excluded
+                okb = c.And(z3.Not(rb.c), rb.b is env["b"])
+            else:
+                okb = rb is env["b"]
+            return c.And(same_rows, z3.Not(one_part_ambiguous), oka, okb, rl is env["lit"])
+
+        def head_of_head(c, env, r):
+            if not c.symbolic or k["frame"] != "Head":
+                return True
+            if not (isinstance(r, Term) and r.cls == "Head" and len(r.args) == 3):
+                return False
+            m = z3.If(env["n"] < env["inner_n"], env["n"], env["inner_n"])
+            return c.And(r.args[0] is env["inner"], c.eq(r.args[1], m), c.eq(r.args[2], env["inner_k"]))
+
+        def other(c, env, r):
+            if not c.symbolic or k["frame"] != "Other":
+                return True
+            return r is None
+
+        return {"same-n-and-npartitions-in-every-row-operand-only-when-all-share-their-rows": pushed, "head-of-head-takes-the-smaller-n-and-the-inner-partition-count": head_of_head, "other-frames-are-left-alone": other}
+
+    def concrete_env(self, inputs):
+        return None
+
+    def concrete_inputs(self):
+        for prog in ("add_cols", "add_scalar", "add_reduction", "filtered_plus_unfiltered", "head_of_head", "assign"):
+            for n, k in ((3, 1), (7, 2), (5, -1)):
+                yield {"program": prog, "n": n, "k": k}
+
+    def run_concrete(self, inputs):
+        import pandas as pd
+
+        import dask_expr as dx
+        from dask_expr._expr import Head
+
+        pdf = pd.DataFrame({"a": range(12), "b": [float(x) for x in range(12)]})
+        df = dx.from_pandas(pdf, npartitions=3)
+        x = {"add_cols": lambda: df.a + df.b, "add_scalar": lambda: df.a + 1, "add_reduction": lambda: df.a + df.a.sum(), "filtered_plus_unfiltered": lambda: df.a[df.a > 1] + df.a,
+             "head_of_head": lambda: dx.new_collection(Head(df.expr, 9, 2)), "assign": lambda: df.assign(z=df.a + df.b)}[inputs["program"]]()
+        e = Head(x.expr, inputs["n"], inputs["k"])
+        out = e._simplify_down()
+        return {"expr": e, "out": out}, out
+
+
+def _head_concrete(env):
+    """The rule's output, lowered and executed, equals the head computed from the frame's partitions."""
+    import dask
+    import pandas as pd
+
+    e, out = env["expr"], env["out"]
+    if out is None:
+        return True
+
+    def run(x):
+        x = x.lower_completely()
+        parts = dask.get(dict(x.__dask_graph__()), x.__dask_keys__())
+        return pd.concat(parts) if len(parts) > 1 else parts[0]
+
+    k = e.operand("npartitions")
+    f = e.frame.lower_completely()
+    parts = dask.get(dict(f.__dask_graph__()), f.__dask_keys__())
+    want = pd.concat(parts if k == -1 else parts[:k]).head(e.n)
+    got = run(out)
+    return got.equals(want)
+
+
+_hs_ens = HeadSimplifyDown.ensures
+
+
+def _hs_ensures(self):
+    posts = _hs_ens(self)
+    posts["first-n-rows-of-the-first-k-partitions"] = lambda c, env, r: True if c.symbolic else _head_concrete(env)
+    return posts
+
+
+HeadSimplifyDown.ensures = _hs_ensures
+SPECS.append(HeadSimplifyDown())
